@@ -158,9 +158,9 @@ func c13GenValueCopies(r *RNG, tier string, add func([]C13Op)) {
 						addv := func(dest int) C13Op { return C13Op{K: "rowaddfrom", R: dest, From: "stamp", S: 0} }
 						dests := [][]C13Op{
 							nil, // never added
-							{opK("append"), addv(n), cellReg(n, 1, 4, tm, "itself")},                            // another attached row, column 1
-							{opN("items", 2), addv(n)},                                                          // late into a full row: column 3
-							{opK("newrow"), opR("rowadd", n), addv(n), opR("addrow", n)},                        // a detached row, attached later, column 2
+							{opK("append"), addv(n), cellReg(n, 1, 4, tm, "itself")},                             // another attached row, column 1
+							{opN("items", 2), addv(n)},                                                           // late into a full row: column 3
+							{opK("newrow"), opR("rowadd", n), addv(n), opR("addrow", n)},                         // a detached row, attached later, column 2
 							{opK("append"), addv(n), opK("append"), addv(n + 1), cellReg(n+1, 1, 4, tm, "cell")}, // twice
 						}
 						if sc.from == "cell" {
